@@ -2,7 +2,10 @@
 
 from __future__ import annotations
 
-from .family import ModelCfg, run_family
+import dataclasses
+
+from . import tgroups
+from .family import ModelCfg, run_family, run_parts
 from .scopes import consts, family
 
 OPS = '{"open", "close", "yield", "wait", "cancel", "shield", "probe"}'
@@ -28,5 +31,18 @@ FAMILY = family("C05", [
 ])
 
 
+# the same clause (NoResidue) on task groups: cancellations delivered to children must not be
+# "uncancelled" on the host (F11)
+TG_OPS = '{"tgopen", "close", "spawn", "raise", "yield"}'
+TGPART = dataclasses.replace(
+    tgroups.family("C01", [
+        ModelCfg("c05-tg-n3o3e1", tgroups.consts(3, 3, 1, TG_OPS, env='{"native"}'), emit=True, check=False,
+                 max_scenarios=5000),
+        ModelCfg("c05-tg-n3o4e2", tgroups.consts(3, 4, 2, TG_OPS), tiers=("thorough",), check=False,
+                 simulate=8000, sim_depth=700),
+    ]),
+    prop="C05", clauses={"NoResidue"})
+
+
 def main(tier: str, seed: int) -> int:
-    return run_family(FAMILY, tier, seed)
+    return run_parts("C05", [FAMILY, TGPART], tier, seed)
